@@ -12,21 +12,19 @@ variable {sr : Msg → Bool} {U X : Prop}
 
 theorem processDispatch_hold (env : Env) (m : Msg) (valid : Bool) (n : Int) (c : Conn)
     (hI : OutInv c) (hl : Live c) (hstamp : isLatin1 env.stamp = true)
-    (hU : U → m.mtype = mResendRequest → (m.get? tEndSeqNo).bind pyInt = some 0)
     (hX : X → m.mtype ≠ mResendRequest) :
     Hold sr U X c (processDispatch env sr m valid n) (fun _ _ => True) := by
   unfold processDispatch
   repeat' hstep
   · rename_i h2
     have h2' : m.mtype = mResendRequest := by simpa using h2
-    exact processResend_hold env m c hI hl hstamp (fun hu => hU hu h2') (fun hx => hX hx h2')
+    exact processResend_hold env m c hI hl hstamp (fun hx => hX hx h2')
   · exact processTestRequest_hold env m c hI
   · exact processHeartbeat_hold env m c hI
 
 /-- `_process_message` -/
 theorem processMessage_hold (env : Env) (m : Msg) (c : Conn) (hI : OutInv c)
     (hstamp : isLatin1 env.stamp = true)
-    (hU : U → m.mtype = mResendRequest → (m.get? tEndSeqNo).bind pyInt = some 0)
     (hX : X → m.mtype ≠ mResendRequest) :
     Hold sr U X c (processMessage env sr m) (fun _ _ => True) := by
   unfold processMessage
@@ -45,7 +43,7 @@ theorem processMessage_hold (env : Env) (m : Msg) (c : Conn) (hI : OutInv c)
       obtain ⟨valid, n⟩ := vn
       dsimp only
       refine Hold.seq (Hold.swallow (Q := fun _ _ => True)
-        (processDispatch_hold env m valid n c2 hI2 (hhead rfl) hstamp hU hX) (fun _ _ => trivial)) ?_
+        (processDispatch_hold env m valid n c2 hI2 (hhead rfl) hstamp hX) (fun _ _ => trivial)) ?_
       intro _ c3 hI3 _
       hstep
       · exact finalizeMessage_hold env m c3 hI3
@@ -125,11 +123,6 @@ def Event.ok : Event → Prop
 instance (ev : Event) : Decidable ev.ok := by
   cases ev <;> unfold Event.ok <;> infer_instance
 
-/-- a ResendRequest whose EndSeqNo(16) is not `0` (= infinity): open finding D9 -/
-def boundedResend : Event → Bool
-  | .recv _ m => m.mtype == mResendRequest && ((m.get? tEndSeqNo).bind pyInt != some 0)
-  | _ => false
-
 def isResendReq : Event → Bool
   | .recv _ m => m.mtype == mResendRequest
   | _ => false
@@ -140,19 +133,14 @@ def isReset : Event → Bool
 
 /-- **every event except `reset_seq_num()` satisfies the step relation** -/
 theorem step_good (c : Conn) (ev : Event) (hI : OutInv c) (hok : ev.ok)
-    (hU : U → boundedResend ev = false) (hX : X → isResendReq ev = false)
-    (hr : isReset ev = false) :
+    (hX : X → isResendReq ev = false) (hr : isReset ev = false) :
     Good sr U X c (step sr c ev).1 (step sr c ev).2 := by
   cases ev with
   | recv env m =>
-    refine (processMessage_hold env m c hI hok ?_ ?_).run
-    · intro hu h2
-      have := hU hu
-      simp only [boundedResend, h2, beq_self_eq_true, Bool.true_and, bne_eq_false_iff_eq] at this
-      exact this
-    · intro hx h2
-      have := hX hx
-      simp [isResendReq, h2] at this
+    refine (processMessage_hold env m c hI hok ?_).run
+    intro hx h2
+    have := hX hx
+    simp [isResendReq, h2] at this
   | appSend env m => exact (sendMsg_hold env m c hI hok).run
   | appTestReq env => exact (sendTestReq_hold env c hI).run
   | appDisconnect env d l => exact (disconnect_hold env d l c hI).run
